@@ -10,6 +10,7 @@ Float laws used: FL-cast (guess reader only).  Assumption: map keys are machine 
 -/
 import CambrianModel.Lemmas.ConfInv
 import CambrianModel.Lemmas.JsonLemmas
+import CambrianModel.Lemmas.ParseLemmas
 namespace Cambrian.Props
 open Cambrian Cambrian.Ctl
 
@@ -22,6 +23,11 @@ theorem C01_guess (cast : Int → F64) (hcast : ∀ i, (cast i).isFinite = true)
     (hs : wf s = true) (hj : jvalid j = true) (hz : jsized j = true) (h : fromJson cast s j = .ok v) :
     conf s v = true :=
   fromJson_conf cast hcast s j v hs hj hz h
+
+/-- "for every accepted spec": what the closure theorems below assume of a spec (`wf`) is what the parser
+    guarantees of every document it accepts (C10) -/
+theorem C01_accepted_wf (y : Y) (s : SNode) (hy : yvalid y = true) (h : parseSpec y = .ok s) : wf s = true :=
+  parseSpec_wf y s hy h
 
 /-- crossover of conforming parents gives a conforming offspring -/
 theorem C01_cross (cp sp : PClass) (s : SNode) (ps : List VNode) (out : VNode) (hs : wf s = true)
